@@ -230,8 +230,8 @@ fn value_for_external_enum(
                 Some(quote! { #scope #type_ident::#var_ident ( #item ) })
             }
             VariantDetails::Tuple(types) => {
-                let tup = value_for_tuple(type_space, var_value, types, scope)?;
-                Some(quote! { #scope #type_ident::#var_ident ( #( #tup ),* ) })
+                let tup = value_for_tuple_variant(type_space, var_value, types, scope)?;
+                Some(quote! { #scope #type_ident::#var_ident ( #tup ) })
             }
             VariantDetails::Struct(props) => {
                 let props = value_for_struct_props(props, var_value, type_space, scope)?;
@@ -309,8 +309,8 @@ fn value_for_adjacent_enum(
             Some(quote! { #scope #type_ident::#var_ident ( #item ) })
         }
         (VariantDetails::Tuple(types), Some(content_value)) => {
-            let tup = value_for_tuple(type_space, content_value, types, scope)?;
-            Some(quote! { #scope #type_ident::#var_ident ( #( #tup ),* ) })
+            let tup = value_for_tuple_variant(type_space, content_value, types, scope)?;
+            Some(quote! { #scope #type_ident::#var_ident ( #tup ) })
         }
         (VariantDetails::Struct(props), Some(content_value)) => {
             let props = value_for_struct_props(props, content_value, type_space, scope)?;
@@ -340,8 +340,8 @@ fn value_for_untagged_enum(
                 Some(quote! { #scope #type_ident::#var_ident ( #item ) })
             }
             VariantDetails::Tuple(types) => {
-                let tup = value_for_tuple(type_space, value, types, scope)?;
-                Some(quote! { #scope #type_ident::#var_ident ( #( #tup ),* ) })
+                let tup = value_for_tuple_variant(type_space, value, types, scope)?;
+                Some(quote! { #scope #type_ident::#var_ident ( #tup ) })
             }
             VariantDetails::Struct(props) => {
                 let props = value_for_struct_props(props, value, type_space, scope)?;
@@ -385,6 +385,22 @@ fn value_for_tuple(
                 .output_value(type_space, tup_value, scope)
         })
         .collect()
+}
+
+/// The arguments of a tuple variant. A variant for a single-item tuple is
+/// emitted with one field that is itself the tuple, `Variant((T,))`.
+fn value_for_tuple_variant(
+    type_space: &TypeSpace,
+    value: &serde_json::Value,
+    types: &[TypeId],
+    scope: &TokenStream,
+) -> Option<TokenStream> {
+    let tup = value_for_tuple(type_space, value, types, scope)?;
+    if types.len() == 1 {
+        Some(quote! { ( #( #tup, )* ) })
+    } else {
+        Some(quote! { #( #tup ),* })
+    }
 }
 
 fn value_for_struct_props(
